@@ -4,7 +4,7 @@
 # /verif, so that neither /repo nor /verif's build state is disturbed.  Test bed under /tmp/mt.
 set -e
 PATCH=$1; [ "$PATCH" != "none" ] && PATCH=$(realpath "$PATCH"); PROP=$2; TIER=${3:-quick}
-MT=/tmp/mt/$PROP            # one test bed per property (concurrent runs of different properties do not interfere)
+MT=${MT_ROOT:-/tmp/mt}/$PROP            # one test bed per property (concurrent runs of different properties do not interfere)
 mkdir -p $MT
 exec 9>$MT/.lock; flock 9    # serialise runs on the same property
 if [ ! -d $MT/repo/.git ] && [ ! -f $MT/repo/.git ]; then
@@ -15,7 +15,7 @@ git -C $MT/repo checkout -q --detach "$(git -C /repo rev-parse HEAD)" || { echo 
 if [ "$PATCH" != "none" ]; then
   git -C $MT/repo apply "$PATCH" 2>/dev/null || (cd $MT/repo && patch -p1 -F3 -s --no-backup-if-mismatch < "$PATCH") || { echo "PATCH DOES NOT APPLY"; exit 3; }
 fi
-rsync -a --delete --exclude .git --exclude .build --exclude evidence/replay --exclude '*.tmp.*' /verif/ $MT/verif/ || [ $? -eq 24 ]
+rsync -a --delete --exclude .git --exclude .build --exclude evidence/replay --exclude '*.tmp.*' ${VERIF_SRC:-/verif}/ $MT/verif/ || [ $? -eq 24 ]
 mkdir -p $MT/verif/.build $MT/verif/evidence
 sed -i "s|/repo/|$MT/repo/|g" $MT/verif/harness/Cargo.toml $MT/verif/harness/src/bin/*.rs
 sed -i "s|/verif/.build/cargo|$MT/verif/.build/cargo|" $MT/verif/harness/.cargo/config.toml
